@@ -125,6 +125,11 @@ def install():
                         c07_violation(r, 'earlier-instantiation-changed', 'TypeConstructor.new',
                                       'an earlier instantiation %s changed during %s.new(...)' % (
                                           o, self.name))
+            if deep(res.t_constructor) != b_self:
+                c07_violation(r, 'new-result-constructor', 'TypeConstructor.new',
+                              'the constructor recorded in %s.new(...) differs from the generic '
+                              'class definition (later re-instantiations of the result would '
+                              'start from substituted supertypes)' % self.name)
             args_s = [tsnap(a) for a in type_args]
             if not any(refrel.has_tvars(a) for a in args_s):
                 _check_new(r, self, type_args, args_s, res, c07_violation)
